@@ -281,6 +281,38 @@
     return p;
   }
 
+  // ---- the environment values of the specification (spec/C01Ast.tla EnvVal, spec/JsCore.tla HostRet/HostGet/HostPrim)
+  function specValue(name, k) {
+    switch (k) {
+      case 1: return undefined;
+      case 2: return null;
+      case 3: return 0;
+      case 4: return 1;
+      case 5: return 's';
+      case 6: case 7: {
+        const f = function (...args) { record(['call', name].concat(args.map(S))); return k === 6 ? 1 : undefined; };
+        hostPaths.set(f, name);
+        return f;
+      }
+      case 8: {
+        const p = new Proxy({}, {
+          get(t, prop) {
+            if (prop === Symbol.toPrimitive) return function (hint) { record(['prim', name, String(hint)]); return hint === 'string' ? '1' : 1; };
+            if (typeof prop === 'symbol') return undefined;
+            record(['get', name, prop]);
+            return 1;
+          },
+          set(t, prop, value) { if (typeof prop !== 'symbol') record(['set', name, prop, S(value)]); return true; },
+          has() { return false; },
+        });
+        hostPaths.set(p, name);
+        return p;
+      }
+      case 9: return false;
+    }
+    return undefined;
+  }
+
   // ---- api ------------------------------------------------------------------------------------
   let envNames = [];
   let baseKeys = null;
@@ -295,6 +327,7 @@
         let v;
         const seed = spec.seed;
         switch (b.kind) {
+          case 'spec': v = specValue(b.name, b.k); break;
           case 'U': v = makeUniversal(b.name, seed, b.p, 0); break;
           case 'fn': v = makeHostFn(b.name, seed); break;
           case 'prim': v = POOL[b.i % POOL.length]; break;
